@@ -21,13 +21,30 @@ class K:
 
 class T:
     """A symbolic term: operator + hashable arguments."""
-    __slots__ = ('op', 'args', '_h', '_s')
+    __slots__ = ('op', 'args', '_h', '_s', '__weakref__')
+    _intern = {}
+
+    def __new__(cls, op, *args):
+        # hash-consing: structurally equal terms are the same object, so
+        # equality of deep terms never recurses
+        key = (op, args)
+        try:
+            t = cls._intern.get(key)
+        except TypeError:
+            t = None
+            key = None
+        if t is None:
+            t = object.__new__(cls)
+            t.op = op
+            t.args = args
+            t._h = hash(('T', op, args)) if key is not None else id(t)
+            t._s = None
+            if key is not None:
+                cls._intern[key] = t
+        return t
 
     def __init__(self, op, *args):
-        self.op = op
-        self.args = args
-        self._h = hash(('T', op, args))
-        self._s = None
+        pass
 
     def __eq__(self, other):
         if self is other:
